@@ -6,7 +6,7 @@ import sys, os, ast, json
 V = os.path.dirname(os.path.dirname(os.path.abspath(__file__))); sys.path.insert(0, V)
 from pxa import norm
 root = sys.argv[1] if len(sys.argv) > 1 else '/repo'
-inv = {}
+inv = {}; skel = {}
 for dp, dn, fs in os.walk(os.path.join(root, 'pox')):
   dn[:] = sorted(d for d in dn if d != '__pycache__')
   for f in sorted(fs):
@@ -17,5 +17,7 @@ for dp, dn, fs in os.walk(os.path.join(root, 'pox')):
     try: tree = ast.parse(open(p, encoding='utf-8', errors='replace').read())
     except SyntaxError: continue
     inv[rel] = norm.module_inventory(tree)
+    skel[rel] = norm.module_skeletons(tree)
 json.dump(inv, open(os.path.join(V, 'spec', 'inventory.json'), 'w'), indent=0, sort_keys=True)
+json.dump(skel, open(os.path.join(V, 'spec', 'skeletons.json'), 'w'), indent=0, sort_keys=True)
 print("modules: %d, functions: %d" % (len(inv), sum(len(v) for v in inv.values())))
